@@ -253,6 +253,7 @@ def handleT [Target] (args : List String) : String :=
         | "strip_prefix" => showRes (showOpt showStr) (bind_RotoString_strip_prefix false s t)
         | "strip_suffix" => showRes (showOpt showStr) (bind_RotoString_strip_suffix false s t)
         | "split" => showRes (showList showStr) (bind_RotoString_split false s t)
+        | "lines_join" => showRes showStr (bind_ErasedList_join false (Str.lines s) t)
         | _ => "bad-op"
       | none => "bad-op"
     | _, none =>
@@ -278,6 +279,13 @@ def handleT [Target] (args : List String) : String :=
     | "rsplitn", some s =>
       match parseStr c with
       | some sep => showRes (showList showStr) (bind_RotoString_rsplitn false s (u64 b) sep)
+      | none => "bad-op"
+    | "splitn_join", some s =>
+      match parseStr c with
+      | some sep2 =>
+        match bind_RotoString_splitn false s (u64 b) ⟨[',']⟩ with
+        | .ok l => showRes showStr (bind_ErasedList_join false l sep2)
+        | .panic => "panic"
       | none => "bad-op"
     | "split_join", some s =>
       match parseStr b, parseStr c with
